@@ -423,6 +423,34 @@ def d3_process(ctx, idx):
         _process_states(r, idx, fi, selfn, R)
 
 
+
+def _credit_scaled_before_switch(idx, fi, R):
+    """When process_grade_list hands the answer's credit to consolidate_single_return and the all-or-nothing comparison there is
+    made on the already scaled grade, say so (the text of the violation); None otherwise."""
+    csr_calls = lib.calls_named(fi.node, 'consolidate_single_return')
+    if len(csr_calls) != 1:
+        return None
+    call = csr_calls[0]
+    csr = idx.func(cm.LG_MOD + '.consolidate_single_return')
+    bound = cm.bind_call(csr.params, call)
+    if not bound:
+        return None
+    credit_params = [k for k, v in bound.items() if cm.is_name(v, 'grade_decimal')]
+    if not credit_params:
+        return None
+    cp = credit_params[0]
+    for p in nf.decision_paths(csr.node.body):
+        for g in p.guards:
+            for n in ast.walk(g):
+                if isinstance(n, ast.Compare) and any(cm.is_call_to(x, 'consolidate_grades') for x in ast.walk(n)) \
+                        and any(cm.is_name(x, cp) for x in ast.walk(n)):
+                    return ("the answer's credit is passed into consolidate_single_return (parameter `%s`) and the all-or-nothing test `%s` "
+                            "is applied AFTER the credit scaling: with partial_credit=False a list with full item credit for an answer worth "
+                            "less than 1 (e.g. 0.5) compares below 1 and is zeroed; the test must look at the item credit, the scaling by the "
+                            "answer's credit comes afterwards" % (cp, short(n)))
+    return None
+
+
 def _process_states(r, idx, fi, selfn, R):
     """Final values of result['msg' | 'grade_decimal' | 'ok' | 'all_awarded'] per decision path, compared with the reference
     over every assignment of: nested subgrader?, all items awarded?, answer message non-empty?, item messages empty?"""
@@ -600,7 +628,11 @@ def _process_states(r, idx, fi, selfn, R):
             # scaling and ok
             gv = state.get('grade_decimal')
             if gv is None:
-                note(C_CRED, 'viol' if understood else 'und', "result['grade_decimal'] is never multiplied by the answer's own credit", fi.loc)
+                moved = _credit_scaled_before_switch(idx, fi, R)
+                if moved:
+                    note(C_CRED, 'viol', moved, fi.loc)
+                else:
+                    note(C_CRED, 'viol' if understood else 'und', "result['grade_decimal'] is never multiplied by the answer's own credit", fi.loc)
             else:
                 res = nf.classify("%s['grade_decimal'] * grade_decimal" % R, resolve(gv, sc))
                 if res == nf.MATCH:
